@@ -227,6 +227,14 @@ class Desc:
         return out
 
 
+def _st_idsz(draw, common):
+    """identifier size: the usual sizes, or any size 1..33 (the code imposes no grid; sizes such as 7 or 15 make record lengths
+    land on cipher-block multiples)"""
+    if draw(st.booleans()):
+        return draw(st.sampled_from(common))
+    return draw(st.integers(1, 33))
+
+
 class SSE1(Desc):
     name = "CGKO06.SSE1"
 
@@ -240,7 +248,11 @@ class SSE1(Desc):
         c["param_l"] = draw(st.sampled_from([8, 16, 32]))
         c["param_s"] = draw(st.sampled_from([4, 8, 16, 32, 64, 128, 256, 512, 1024]))
         c["param_dictionary_size"] = draw(st.sampled_from([0, 3, 64, 300]))  # 0 / 3 -> |W| / |W|+3 in finalize
-        c["param_identifier_size"] = draw(st.sampled_from([1, 4, 8, 16, 20]))
+        c["param_identifier_size"] = _st_idsz(draw, [1, 4, 8, 16, 20])
+        if draw(st.integers(0, 3)) == 0:
+            # a list node (identifier + next key + next address) that fills whole cipher blocks exactly
+            addr = ((c["param_s"] - 1).bit_length() + 7) // 8
+            c["param_identifier_size"] = (-(c["param_k"] + addr)) % 16 or 16
         c["prf_f"] = draw(st.sampled_from(PRF_ALIASES))
         c["prp_pi"] = draw(st.sampled_from(FPE_ALIASES))
         c["prp_psi"] = draw(st.sampled_from(FPE_ALIASES))
@@ -286,7 +298,7 @@ class SSE2(Desc):
         c["param_k"] = draw(st.sampled_from([16, 24, 32]))
         c["param_l"] = draw(st.sampled_from([8, 16, 32]))
         c["param_max_file_size"] = draw(st.sampled_from([16, 300, 2 ** 20]))
-        c["param_identifier_size"] = draw(st.sampled_from([1, 4, 8, 16]))
+        c["param_identifier_size"] = _st_idsz(draw, [1, 4, 8, 16])
         c["param_n"] = -draw(st.sampled_from([0, 0, 1, 5]))  # finalize: distinct ids + slack
         c["prp_pi"] = draw(st.sampled_from(FPE_ALIASES))
         c["ske"] = draw(st.sampled_from(SKE_ALIASES))
@@ -321,7 +333,7 @@ class PiBas(Desc):
         c["prf_f_output_length"] = lam
         c["prf_f"] = draw(st.sampled_from(PRF_ALIASES))
         c["ske"] = draw(st.sampled_from(SKE_ALIASES))
-        c["_id_size"] = draw(st.sampled_from([1, 2, 4, 8, 13, 16, 20]))
+        c["_id_size"] = _st_idsz(draw, [1, 2, 4, 8, 13, 16, 20])
         return c
 
     def id_size(self, cfg, draw=None):
@@ -342,7 +354,7 @@ class PiPack(PiBas):
         c["param_lambda"] = lam
         c["prf_f_output_length"] = lam
         c["param_B"] = draw(st.sampled_from([1, 2, 3, 4, 8, 64]))
-        c["param_identifier_size"] = draw(st.sampled_from([1, 2, 4, 8, 16]))
+        c["param_identifier_size"] = _st_idsz(draw, [1, 2, 4, 8, 16])
         c["prf_f"] = draw(st.sampled_from(PRF_ALIASES))
         c["ske"] = draw(st.sampled_from(SKE_ALIASES))
         return c
@@ -370,7 +382,7 @@ class PiPtr(PiPack):
         c["prf_f_output_length"] = lam
         c["param_B"] = draw(st.sampled_from([1, 2, 3, 4, 8, 64]))
         c["param_b"] = draw(st.sampled_from([1, 2, 3, 8, 64]))
-        c["param_identifier_size"] = draw(st.sampled_from([1, 2, 4, 8, 16]))
+        c["param_identifier_size"] = _st_idsz(draw, [1, 2, 4, 8, 16])
         c["prf_f"] = draw(st.sampled_from(PRF_ALIASES))
         c["ske"] = draw(st.sampled_from(SKE_ALIASES))
         return c
@@ -482,7 +494,7 @@ class CT14(Desc):
         c["param_k"] = draw(st.sampled_from([8, 16, 20, 24, 32, 48]))
         c["param_k_prime"] = draw(st.sampled_from([16, 24, 32]))
         c["param_l"] = draw(st.sampled_from([8, 16, 20, 32]))
-        c["param_identifier_size"] = draw(st.sampled_from([1, 4, 8, 16]))
+        c["param_identifier_size"] = _st_idsz(draw, [1, 4, 8, 16])
         c["prf_f"] = draw(st.sampled_from(PRF_ALIASES))
         c["prf_f_prime"] = draw(st.sampled_from(PRF_ALIASES))
         c["ske"] = draw(st.sampled_from(SKE_ALIASES))
@@ -515,7 +527,7 @@ class ANSS16(CT14):
         c["param_lambda"] = draw(st.sampled_from([16, 32, 48]))
         c["param_l"] = draw(st.sampled_from([8, 16, 32]))
         c["param_l_prime"] = draw(st.sampled_from([8, 16, 32]))
-        c["param_identifier_size"] = draw(st.sampled_from([1, 4, 8, 16]))
+        c["param_identifier_size"] = _st_idsz(draw, [1, 4, 8, 16])
         c["prf"] = draw(st.sampled_from(PRF_ALIASES))
         c["ske"] = draw(st.sampled_from(SKE_ALIASES))
         return c
@@ -532,7 +544,7 @@ class DP17(Desc):
         c["param_lambda"] = draw(st.sampled_from([16, 24, 32]))
         c["param_L"] = draw(st.sampled_from([1, 2, 3, 4]))
         c["param_actual_storage_level_ratio"] = draw(st.sampled_from([0.2, 0.5, 1.0]))
-        c["param_identifier_size"] = draw(st.sampled_from([1, 4, 8, 16]))
+        c["param_identifier_size"] = _st_idsz(draw, [1, 4, 8, 16])
         c["rnd"] = draw(st.sampled_from(SKE_ALIASES))
         c["prf_f"] = draw(st.sampled_from(PRF_ALIASES))
         c["hash_h"] = draw(st.sampled_from(["SHA1", "sha1", "sha256", "md5"]))
